@@ -168,3 +168,32 @@ def variants_built(fn, blocks, adt_pat):
         if bi in blocks and rv[0] == "agg" and rv[1] == "adt" and _re.search(adt_pat, rv[2]):
             out.add(rv[3])
     return out
+
+
+def byte_tries(fn):
+    """byte strings recognised by `match bytes { b"ABCD" => .. }` decision trees: list of (bytes, leaf block)"""
+    out = []
+
+    def idx_of(op):
+        if "p" in op and len(op["p"]) >= 2 and isinstance(op["p"][-1], str) and op["p"][-1].startswith("[") and op["p"][-1][1:-1].isdigit():
+            return tuple(op["p"][:-1]), int(op["p"][-1][1:-1])
+        return None, None
+
+    def walk(block, base, depth, prefix):
+        t = fn.term(block)
+        if t[0] == "switch":
+            b, i = idx_of(t[1])
+            if b == base and i == depth:
+                for v, tgt in t[2]:
+                    walk(tgt, base, depth + 1, prefix + bytes([v & 0xff]))
+                return
+        if prefix:
+            out.append((prefix, block))
+
+    for bi in sorted(fn.reachable_blocks()):
+        t = fn.term(bi)
+        if t[0] == "switch":
+            b, i = idx_of(t[1])
+            if b is not None and i == 0:
+                walk(bi, b, 0, b"")
+    return out
